@@ -84,16 +84,17 @@ def run(ctx):
                         label="enumerate cases (%s) + design-level invariants" % ",".join(modes), timeout=2400)
     ctx.log("generated", len(r.cases), "records", r.stats(), "%.0fs" % r.wall)
     if thorough:
-        # the pruning algebra as written, checked as an invariant: TLC's counterexample is a candidate, not a verdict
-        r2 = rt.run_cond_tlc(ctx, "<<RangeA, YearA>>", ["leaves"], invariants=("TypeOK", "CodePruneSound"), emit=False,
-                             workers=1, allow_violation=True, label="design: pruning as written (counterexample = candidate)")
-        ctx.cov["design_level_candidate"] = {"violated": r2.violated, "trace": r2.trace_text[:1200]}
+        # the pruning algebra before the repairs bf55534 / 2551487, checked as an invariant: TLC's counterexample documents
+        # what the repairs fixed (the stored cases of the fixed findings are replayed in every run)
+        r2 = rt.run_cond_tlc(ctx, "<<RangeA, YearA>>", ["leaves"], invariants=("TypeOK", "OldPruneSound"), emit=False,
+                             workers=1, allow_violation=True, label="design: pruning before the repairs (counterexample expected)")
+        ctx.cov["design_level_before_repairs"] = {"violated": r2.violated, "trace": r2.trace_text[:1200]}
     lines, rulerecs = rt.group_by_rule(r.cases, "cond")
     # the pruning algebra as written must be sound where no range pruning exists (hash, mod): a failure there is a
     # specification-level problem, not an implementation verdict
-    plain_unsound = [c for c in lines if c.get("kind") == "cond" and not c["dsound"] and c["rule"].split("-")[0] in ("hash", "mod")]
-    if plain_unsound:
-        raise vlib.Inconclusive("design level: pruning model unsound for a hash/mod rule: %s" % json.dumps(plain_unsound[0])[:600])
+    unsound = [c for c in lines if c.get("kind") == "cond" and not c["dsound"]]
+    if unsound:  # (TLC's RepairedPruneSound invariant already guards this)
+        raise vlib.Inconclusive("design level: the model of the current pruning code is unsound: %s" % json.dumps(unsound[0])[:600])
     extra = rt.known_lines("C01")
     decorate(lines, rng, thorough)
     decorate(extra, rng, thorough)
